@@ -545,6 +545,31 @@ func allChildrenZombies(pid int) bool {
 	return n > 0
 }
 
+// CallerIgnored returns the signals this process ignores (SigIgn of /proc/self/status): what a
+// program forked from it inherits as ignored through no doing of go-sandbox.
+func CallerIgnored() ([]int, error) {
+	b, err := os.ReadFile("/proc/self/status")
+	if err != nil {
+		return nil, err
+	}
+	for _, ln := range strings.Split(string(b), "\n") {
+		if strings.HasPrefix(ln, "SigIgn:") {
+			m, err := strconv.ParseUint(strings.TrimSpace(ln[7:]), 16, 64)
+			if err != nil {
+				return nil, err
+			}
+			out := []int{}
+			for s := 1; s <= 64; s++ {
+				if m&(1<<uint(s-1)) != 0 {
+					out = append(out, s)
+				}
+			}
+			return out, nil
+		}
+	}
+	return nil, fmt.Errorf("no SigIgn in /proc/self/status")
+}
+
 // ContainerInits returns the pids of the container init processes started by this process
 // (children whose argv[1] is "container_init").
 func ContainerInits() ([]int, error) {
